@@ -34,9 +34,12 @@
 //   segments >= 1, low / segment_size / segments <= 2^40,
 //   S2_hard: c >= 4 or c >= get_c(y) (then max_b <= pi(y) <= c: the b range is empty);
 //   D: z <= x, isqrt(z) <= y, k >= 4 or k >= pi(x_star).
+//   hardphi x a -> primecount::phi(x, a, 1)
 //   (the Sieve has 2, 3, 5 removed by construction and FactorTable holds the numbers coprime to 2*3*5*7*11 only:
 //    levels b <= 4 cannot be processed; the real callers pass c = get_c(y), k = get_k(x))
 #include "common.hpp"
+
+#include <primecount.hpp>
 
 #include <primecount-internal.hpp>
 #include <PiTable.hpp>
@@ -465,6 +468,15 @@ std::string op_run(bool isD, const Args& a)
 }
 
 } // namespace
+
+// hardphi x a -> primecount::phi(x, a) (ties the model side's φ evaluator `hlPhi` to the real phi)
+PCV_OP(hardphi)
+{
+  int64_t x, av;
+  if (a.size() != 2) return "ERR:proto";
+  if (!parse_nat64(a.at(0), x, (int64_t) 1000000000000ll) || !parse_nat64(a.at(1), av, 3000)) return "ERR:domain";
+  return i128s(primecount::phi(x, av, 1));
+}
 
 PCV_OP(s2hard_chunk) { return op_chunk(false, a); }
 PCV_OP(d_chunk)      { return op_chunk(true, a); }
